@@ -102,38 +102,50 @@ def report_lake_failure(ctx, search=None):
 
 
 # ---------------------------------------------------------------- properties
+# one module per property under tools/checks/Cxx.py, each exposing
+#   check(ctx) -> dict(rule=..., assumptions=[...], extra={...}, search=fn)   and   MANIFEST = dict(text=, technique=, ref=)
 
-def check_C01(ctx):
-    rows = R.run_kind(ctx, 'ops')
-    R.compare(ctx, rows, proj_grammar, 'C01 grammar/drops of every operator over raw scripts', oracle=oracle_grammar, nontrivial=nontrivial_op)
-    return dict(rule='every catalogue operator x parameters x variants x raw scripts (exhaustive to length 2/3 over {-1,0,2,3}, three endings, '
-                     'illegal suffixes N/C/E after the terminal, seeded longer scripts) x {sync, hot} source x external cut; '
-                     'compared: kinds of delivered notifications + multiset of dropped notifications; oracle: Grammar on the implementation trace; '
-                     'non-trivial = script has a value and something was delivered or dropped')
-
-
-def check_C04(ctx):
-    rows = R.run_kind(ctx, 'ops')
-    R.compare(ctx, rows, proj_values, 'C04 delivered values and terminal', nontrivial=nontrivial_op)
-    return dict(rule='every catalogue operator x parameters (boundaries) x four variants x named callbacks x raw scripts (exhaustive to length 2/3 over '
-                     '{-1,0,2,3} x three endings x illegal suffixes; seeded longer scripts) x {sync, hot}; compared: delivered values, kinds and order; '
-                     'non-trivial = script has a value and something was delivered or dropped')
-
-
-CHECKS = {'C01': check_C01, 'C04': check_C04}
+def load_check(prop):
+    import importlib
+    sys.path.insert(0, os.path.join(os.path.dirname(os.path.abspath(__file__)), 'checks'))
+    try:
+        return importlib.import_module(prop)
+    except ModuleNotFoundError:
+        return None
 
 
 def run(ctx):
-    fn = CHECKS.get(ctx.prop)
-    if fn is None:
+    mod = load_check(ctx.prop)
+    if mod is None:
         print(f'{ctx.prop}: no check registered')
         return 2
-    if not preamble(ctx):
+    fn = mod.check
+    if not preamble(ctx, race=getattr(mod, 'NEEDS_RACE', False)):
         return 2
     audit(ctx)
+    replay_known(ctx)
     info = fn(ctx) or {}
     report_lake_failure(ctx, info.get('search'))
     return R.finish(ctx, rule=info.get('rule', ''), assumptions=info.get('assumptions'), extra=info.get('extra'))
+
+
+def replay_known(ctx):
+    """known_findings.jsonl: each open finding of this property carries a witness `case` line and the
+    implementation result that shows the deviation. Still showing it => KNOWN-FINDING line.
+    (If the implementation no longer shows it, the correspondence run reports the difference.)"""
+    for k in R.load_known(ctx.prop):
+        if k.get('status') != 'open':
+            continue
+        if k.get('case'):
+            res = R.replay_cases(ctx, [k['case']], exe=k.get('exe', 'harness'))
+            got = ' '.join(res[0][1].split()[2:]) if res else '?'
+            if got == k.get('impl'):
+                ctx.known.append(f"{k['key']}: {k['what']}")
+            else:
+                ctx.notes.append(f"known finding {k['key']} no longer reproduces (implementation now gives: {got})")
+        else:
+            # findings witnessed by a regenerated fact row / theorem are re-derived by the check itself
+            ctx.known_static = getattr(ctx, 'known_static', []) + [k]
 
 
 def replay(ctx, path):
